@@ -29,7 +29,8 @@ RULES = {
 }
 ASSUMPTIONS = [
     "which decomposition is chosen when adjacent placeholders make several possible is left open",
-    "integers of more than 4000 digits may be answered 404 or with the exact value",
+    "integers of more than 4000 digits may be answered 404 or with the exact value; with adjacent placeholders the split is ambiguous, so this "
+    "applies to any path with a run of more than 4000 ASCII digits on a route that has an int placeholder",
     "route authors do not repeat a placeholder name within one route and do not put braces in literal text",
 ]
 
@@ -37,9 +38,17 @@ TYPES = ["str", "int", "decimal", "uuid", "date", "any", None]
 PYTYPE = {"str": str, None: str, "any": str, "int": int, "decimal": decimal.Decimal, "uuid": uuid.UUID, "date": datetime.date}
 
 
-def _huge_int(route, decs_raw):
+_LONG_DIGITS = __import__("re").compile("[0-9]{4001,}")
+
+
+def _huge_int(route, decs_raw, path=""):
+    """An int placeholder may have to take more digits than the interpreter converts (default limit
+    4300).  With adjacent placeholders the split is ambiguous, so the test is on the path: a digit run
+    of more than 4000 characters in front of a route that has an int placeholder."""
     types = {tok[1]: tok[2] for tok in route if tok[0] == "p"}
-    return any(types[k] == "int" and len(v) > 4000 for d in decs_raw for k, v in d.items())
+    if any(types[k] == "int" and len(v) > 4000 for d in decs_raw for k, v in d.items()):
+        return True
+    return "int" in types.values() and bool(_LONG_DIGITS.search(path))
 
 
 def check_roundtrip(r: Result, typ, value, ctx: str) -> None:
@@ -149,7 +158,7 @@ def oracle_table(case) -> Result:
             matching += 1
             if exp_idx is None:
                 exp_idx = idx
-                huge = _huge_int(rt, decs)
+                huge = _huge_int(rt, decs, path)
                 if not huge:
                     types = {tok[1]: tok[2] for tok in rt if tok[0] == "p"}
                     admissible = [{k: ref.convert(types[k], v) for k, v in d.items()} for d in decs]
@@ -363,5 +372,5 @@ def run(rec, only=None):
     quick = rec.tier == "quick"
     core.run_sharded(rec, conv_shard, 16, core.ncpu(), (3 if quick else 4,))
     rec.exhaustive["conv"] = True
-    core.drive_hypothesis(rec, "table", table_case(), oracle_table, 2500 if quick else 40000)
+    core.drive_hypothesis(rec, "table", table_case(), oracle_table, 5000 if quick else 60000)
     rec.exhaustive["table"] = False
